@@ -166,7 +166,7 @@ def run(ctx, ck) -> None:
         for p in function_paths(fs):
             if p.exit != 'return':
                 continue
-            t = term(p.node.value)
+            t = term(p.node.value, path_env(p))
             from ..terms import atom_facts as _af
 
             for e, pol in p.conds():
